@@ -2789,7 +2789,11 @@ def groupby_reduce(
         # by dim != axis?
         raise NotImplementedError("Please provide ``expected_groups`` when not reducing along all axes.")
 
-    assert nax <= by_.ndim
+    if nax > by_.ndim:
+        raise ValueError(
+            f"Cannot reduce along {nax} axes when the `by` arrays only have {by_.ndim} dimension(s). "
+            "`axis` must be a subset of the dimensions of `by`."
+        )
     if nax < by_.ndim:
         by_ = _move_reduce_dims_to_end(by_, tuple(-array.ndim + ax + by_.ndim for ax in axis_))
         array = _move_reduce_dims_to_end(array, axis_)
